@@ -117,7 +117,7 @@ Qed.
 Theorem api_hb_unforced_is_poll : api_hb_unforced_is_poll_stmt.
 Proof.
   split; [exact api_dev_unforced_eq|]. split; [exact api_unforced_eq|].
-  intros r Hop. cbn [api_step]. destruct (is_active_node (rn r)); cbn [negb]; [|reflexivity].
+  intros r Hop. cbn [api_step]. rewrite Hop. cbn [Z.eqb Pos.eqb negb orb]. rewrite orb_false_r. destruct (is_active_node (rn r)); cbn [negb]; [|reflexivity].
   apply api_unforced_eq. exact Hop.
 Qed.
 Print Assumptions api_hb_unforced_is_poll.
@@ -370,7 +370,7 @@ Proof.
   exact (seqs_kept_trans _ _ _ K1 K2).
 Qed.
 Lemma api_all_forced_seqs r : seqs_kept r (fst (api_step r (ASendHeartbeatAll true))).
-Proof. cbn [api_step]. destruct (is_active_node (rn r)); cbn [negb fst]; [apply api_forced_seqs|apply seqs_kept_refl]. Qed.
+Proof. cbn [api_step]. destruct (negb (is_active_node (rn r)) || negb (n_open (rn r) =? 3)); cbn [fst]; [apply seqs_kept_refl|apply api_forced_seqs]. Qed.
 Lemma api_dev_seqs r j : seqs_kept r (fst (api_step r (ASendHeartbeatDev j))).
 Proof.
   cbn [api_step]. destruct (is_active_node (rn r) && valid_dev r j); cbn [fst]; [|apply seqs_kept_refl].
@@ -402,7 +402,7 @@ Proof.
 Qed.
 Lemma api_all_forced_open r : n_open (rn r) = 3 -> n_open (rn (fst (api_step r (ASendHeartbeatAll true)))) = 3.
 Proof.
-  intros Hop. cbn [api_step]. destruct (is_active_node (rn r)); cbn [negb fst]; [|exact Hop]. apply api_forced_open. exact Hop.
+  intros Hop. cbn [api_step]. destruct (negb (is_active_node (rn r)) || negb (n_open (rn r) =? 3)); cbn [fst]; [exact Hop|]. apply api_forced_open. exact Hop.
 Qed.
 Lemma api_dev_open r j : n_open (rn r) = 3 -> n_open (rn (fst (api_step r (ASendHeartbeatDev j)))) = 3.
 Proof.
